@@ -3,11 +3,12 @@ from vlib.gen_traj import yaw_block, probe_times, i16, u16
 from vlib.skyb import hx
 
 PID = "C10"
-LEAN_MODULE = "Sb.Properties.C10"
+LEAN_MODULE = "Sb.Properties.C10Block"
 THEOREMS = [
     "Sb.C10.constants", "Sb.C10.header_fields_exact", "Sb.C10.numDeltas_eq", "Sb.C10.yaw_eq_spec", "Sb.C10.yawAt_eq",
     "Sb.C10.yawRateAt_eq", "Sb.C10.before_zero", "Sb.C10.yaw_at_zero", "Sb.C10.after_end_hold",
     "Sb.Proofs.buildSetpoint_spec", "Sb.Proofs.yaw_seek_spec",
+    "Sb.C10.yaw_eq_spec_of_block", "Sb.C10.decodeDeltas_bounds",
 ]
 RULE = ("yaw-control blocks: any flag byte, offsets {±32767,-32768,0,seeded}, 0..200 setpoints with durations {1,1000,65535,seeded>=1} and "
         "changes {±32767,-32768,0,seeded}, long runs of +32767 changes (accumulated yaw far beyond ±3276.7°), trailing 1..3 stray bytes; "
